@@ -600,4 +600,68 @@ theorem max_only_at_maximum (c : Chan) (p t : Int)
 
 example : check (mkLst .max ⟨fun _ => 5, fun t => 500 - t, fun _ => 0, fun _ => 0, 0⟩) (some 0) 1000 = true := by decide
 
+/-! ## `TopocentricFrame.visibility` -/
+
+/-- **visibility_stream_spec.**  An element of the iteration stream (user listeners followed by the station's own
+AOS/LOS, MAX and — with a mask — mask listeners) is yielded by `visibility` **iff** its elevation is not negative or its
+`event` is an instance of an event class of the station's own listeners; order and multiplicity are those of the
+iteration stream (`visibility` is a `filter` of it). -/
+theorem visibility_stream_spec (user : List (Kind × Chan)) (sta : Chan) (hasMask events : Bool)
+    (st : List (Option Int)) (samples : List Int) :
+    let sk := if events then stationKinds hasMask else []
+    let all := user ++ sk.map (fun k => (k, sta))
+    let stream := iter (all.map (fun kc => mkLst kc.1 kc.2)) st samples
+    (visibility user sta hasMask events st samples).Sublist stream ∧
+    ∀ it, it ∈ visibility user sta hasMask events st samples ↔
+      it ∈ stream ∧ (0 ≤ sta.phi it.t ∨ ∃ i lab kc, it.ev = some (i, lab) ∧ all[i]? = some kc ∧ passes sk kc.1 = true) := by
+  intro sk all stream
+  refine ⟨List.filter_sublist, fun it => ?_⟩
+  simp only [visibility, List.mem_filter]
+  refine and_congr_right (fun _ => ?_)
+  by_cases hphi : sta.phi it.t < 0
+  · have hn : ¬ 0 ≤ sta.phi it.t := by omega
+    simp only [hphi, hn, decide_true, Bool.true_and, Bool.not_not, false_or]
+    cases hev : it.ev with
+    | none => simp
+    | some x =>
+      obtain ⟨i, lab⟩ := x
+      cases hk : all[i]? with
+      | none =>
+        have hk' := hk
+        simp only [all, sk] at hk'
+        simp only [hk']
+        constructor
+        · intro h; cases h
+        · rintro ⟨i', lab', kc', he, hk2, -⟩
+          cases he; rw [hk] at hk2; cases hk2
+      | some kc =>
+        have hk' := hk
+        simp only [all, sk] at hk'
+        simp only [hk']
+        constructor
+        · intro h; exact ⟨i, lab, kc, rfl, hk, h⟩
+        · rintro ⟨i', lab', kc', he, hk2, h⟩
+          cases he; rw [hk] at hk2; cases hk2; exact h
+  · have hp : 0 ≤ sta.phi it.t := by omega
+    simp [hphi, hp]
+
+/-- which events pass the horizon filter: exactly those of AOS/LOS, mask and MAX listeners (the station's own event
+classes and their subclasses — `MaskEvent` is a `SignalEvent`); node, apsis, light, terminator, anomaly and radial
+velocity events of additional listeners are dropped while the satellite is below the horizon. With `events` false no
+event passes. (Tables regenerated from the class definitions of listeners.py.) -/
+theorem passes_spec (hasMask : Bool) (k : Kind) :
+    (passes (stationKinds hasMask) k = true ↔ k = .signal ∨ k = .mask ∨ k = .max) ∧ passes [] k = false := by
+  constructor
+  · cases hasMask <;> cases k <;> simp [passes, stationKinds, eventOf, Kind.pre, kindOfPre?,
+      Generated.ListenSrc.eventAncestors, Generated.ListenSrc.stationListeners, Generated.ListenSrc.stationListenersIfMask,
+      List.lookup]
+  · simp [passes]
+
+/-- `stations_listeners`: AOS/LOS and MAX always, the mask listener when the station has a mask -/
+theorem stationKinds_spec : stationKinds false = [.signal, .max] ∧ stationKinds true = [.signal, .max, .mask] := by
+  constructor <;> decide
+
+example : (visibility [(.node, ⟨fun t => t - 500, fun _ => 1, fun _ => 0, fun _ => 0, 0⟩)]
+    ⟨fun _ => -1, fun _ => 0, fun _ => 0, fun _ => 0, 0⟩ false true [none, none, none] [0, 1000]) = [] := by decide +kernel
+
 end BeyondVerif.C10
